@@ -42,7 +42,15 @@ impl Driver {
                 match successor.type_().clone() {
                     SuccessorType::FallThrough => {
                         let locations = location.forward()?;
-                        if locations.len() == 1 {
+                        // a single successor is taken without evaluating a guard
+                        // only when it carries none (the next instruction, or an
+                        // unconditional edge)
+                        let unconditional = locations.len() == 1
+                            && match locations[0].edge() {
+                                Some(edge) => edge.condition().is_none(),
+                                None => true,
+                            };
+                        if unconditional {
                             Ok(Driver::new(
                                 self.program.clone(),
                                 locations[0].clone().into(),
@@ -117,7 +125,12 @@ impl Driver {
             }
             il::RefFunctionLocation::EmptyBlock(_) => {
                 let locations = location.forward()?;
-                if locations.len() == 1 {
+                let unconditional = locations.len() == 1
+                    && match locations[0].edge() {
+                        Some(edge) => edge.condition().is_none(),
+                        None => true,
+                    };
+                if unconditional {
                     return Ok(Driver::new(
                         self.program.clone(),
                         locations[0].clone().into(),
